@@ -283,7 +283,12 @@ int main(int argc, char **argv)
     long long ev_total = 0, states = 0, nontriv = 0;
     std::vector<u64> V; // per-coefficient value set
     if (W == 2) for (u64 x = 0; x <= MASK; x++) V.push_back(x);
-    else if (W == 32) V = small_alphabet();
+    else if (W == 32)
+    {
+        V = small_alphabet();
+        if (th) // thorough: 28 boundary words per coefficient (21952 elements, 482 M ordered pairs per operation)
+            for (u64 x : std::vector<u64>{GP - 2, (GP - 1) / 2, (GP + 1) / 2, 0xFFFFFFFEFFFFFFFFULL, 0x7FFFFFFFFFFFFFFFULL, 0x7FFFFFFF80000000ULL, 0xFFFFFFFEULL, 0x100000001ULL, GP + 2, 3, 7, 0xFFFFFFFE00000002ULL, 0x7FFFFFFF80000001ULL, 0x8000000000000001ULL, 0xFFFFFFFFFFFFFFFEULL, 0x1FFFFFFFFULL}) V.push_back(x);
+    }
     else { u64 c[] = {0, 1, 2, PR - 1, PR, PR + 1, MASK, (1ULL << W) - 1, 1ULL << W, PR / 2}; for (u64 x : c) V.push_back(x & MASK); std::sort(V.begin(), V.end()); V.erase(std::unique(V.begin(), V.end()), V.end()); }
     const size_t nv = V.size();
     std::vector<T3> ELS;
